@@ -33,7 +33,7 @@ def nontrivial(path):
     return n
 
 
-def run(c, props=PROPS, profile=PROFILE, oracle=ORACLE, rule=RULE):
+def run(c, props=PROPS, profile=PROFILE, oracle=ORACLE, rule=RULE, extra_stage=None):
     pr = c.coq_props(props, extra_targets=["Extract/ExCodec.v"])
     ok = cc.build(c, drivers=("hist_run",))
     disagree = None
@@ -62,6 +62,8 @@ def run(c, props=PROPS, profile=PROFILE, oracle=ORACLE, rule=RULE):
                 sid = re.search(r"case=(\d+)", mism[0])
                 if sid:
                     disagree = cc.first_case_text(hist, sid.group(1))
+    if extra_stage is not None and ok:
+        extra_stage(c, cov)
     if c.broken and not c.violations:
         rep = {"kind": "proof or correspondence no longer checks; no history violating the property was found", "broken": c.broken}
         if disagree:
